@@ -13,14 +13,16 @@ import (
 )
 
 type cCase struct {
-	Name    string  `json:"name"`
-	Tok     tokSpec `json:"tok"` // the client's token (Mut flip-s: its stored signature is corrupted)
-	Sub     string  `json:"sub"`
-	M2      mut     `json:"m2"`
-	Expect  int     `json:"expect"`
-	NoModel bool    `json:"nomodel,omitempty"`
-	RB      []byte  `json:"rb"`
-	SID     string  `json:"sid"`
+	Name     string  `json:"name"`
+	Tok      tokSpec `json:"tok"` // the client's token (Mut flip-s: its stored signature is corrupted)
+	Sub      string  `json:"sub"`
+	M2       mut     `json:"m2"`
+	Expect   int     `json:"expect"`
+	NoModel  bool    `json:"nomodel,omitempty"`
+	ReplayM2 []frame `json:"replay_m2,omitempty"` // a recorded message 2 is sent instead of a fresh one
+	IDTokens bool    `json:"idtokens,omitempty"`  // negotiate the method as IDTOKENS instead of TOKEN
+	RB       []byte  `json:"rb"`
+	SID      string  `json:"sid"`
 }
 
 type m2in struct {
@@ -114,6 +116,9 @@ func buildM2(in m2in, m mut) []frame {
 	case "trail":
 		trail = rep(0x43, m.Arg)
 	}
+	if m.Kind == "none" { // the peer goes away instead of answering
+		return nil
+	}
 	var b []byte
 	if empty {
 		b = encode([]field{fi(status), fi(0), fs(nil), fi(0), fs(nil), fi(0), fi(0), fi(0)})
@@ -150,12 +155,14 @@ type cRun struct {
 	ra         []byte
 	fails      []string
 	tokenFull  string
+	now        int64
 	emptyWorld world
 }
 
 func runC(cc *cCase, evilKey []byte) cRun {
 	var r cRun
 	now := time.Now().Unix()
+	r.now = now
 	hp, sig := cc.Tok.mint(now)
 	useSig := sig
 	if cc.Tok.Mut.Kind == "flip-s" {
@@ -170,7 +177,11 @@ func runC(cc *cCase, evilKey []byte) cRun {
 	}
 	r.tokenFull = full
 	// the loaded token is an input of the client model: obtained from the real loader
-	cid, tok, lsig, err := security.VerifC11LoadToken(security.AuthToken, &security.SecurityConfig{Token: full})
+	method := security.AuthToken
+	if cc.IDTokens {
+		method = security.AuthIDTokens
+	}
+	cid, tok, lsig, err := security.VerifC11LoadToken(method, &security.SecurityConfig{Token: full})
 	r.ldOK = err == nil
 	if r.ldOK {
 		r.ldCid, r.ldTok, r.ldSig = cid, tok, lsig
@@ -178,8 +189,11 @@ func runC(cc *cCase, evilKey []byte) cRun {
 	K := refKdf(useSig, []byte(hp))
 	Kevil := refKdf(refSign(evilKey, []byte(hp)), []byte(hp))
 	var m1 msg1
-	r.obs = runClient(full, func(fr []frame) []frame {
+	r.obs = runClient(full, method, func(fr []frame) []frame {
 		m1 = parse1(fr)
+		if cc.ReplayM2 != nil {
+			return cc.ReplayM2
+		}
 		return buildM2(m2in{cid: []byte(cc.Sub), sid: []byte(cc.SID), ra: m1.RA, rb: cc.RB, K: K, Kevil: Kevil, sig: useSig}, cc.M2)
 	})
 	o := r.obs
